@@ -634,3 +634,59 @@ func idempotentArchDefault(in ssa.Instruction) bool {
 	}
 	return false
 }
+
+// checkPolicyReadOnly (rule E1.readonly, used by C01 and C03): the statements about "the policy" and "the compiled program"
+// assume one policy value: compiling must not write memory reachable from the caller's policy, or what a later group is
+// compiled from is no longer what the caller wrote (an `append` to a caller-owned slice with spare capacity overwrites the
+// names of a group that shares the array). Same effect analysis as C13's E5.owner, with the compile entry points as roots.
+func checkPolicyReadOnly(e *Env, p *load.Program, rule string) {
+	r := e.R
+	a := effects.New(load.Module, isPolicyType)
+	var all []*ssa.Function
+	for _, pp := range []string{load.PkgRoot, load.PkgArch} {
+		all = append(all, p.SrcFuncs(pp)...)
+	}
+	a.RegisterMethods(all)
+	n := 0
+	for _, name := range []string{"Policy.Assemble", "SyscallGroup.Assemble", "SyscallWithConditions.Assemble", "Policy.Validate"} {
+		if f := p.Func(load.PkgRoot, name); f != nil {
+			a.AddRoot(f, true)
+			n++
+		}
+	}
+	if n < 2 {
+		r.Unknown(rule, "roots", "", "the compile entry points were not found")
+		return
+	}
+	a.Run()
+	seen := map[string]bool{}
+	bad := 0
+	sort.Slice(a.Writes, func(i, j int) bool { return a.Writes[i].Instr.Pos() < a.Writes[j].Instr.Pos() })
+	for _, w := range a.Writes {
+		if w.Obj.Kind != effects.Caller {
+			continue
+		}
+		key := load.FuncName(w.Fn) + "/" + w.What
+		if seen[key] {
+			continue
+		}
+		seen[key] = true
+		if w.What == "store field Policy.arch" && idempotentArchDefault(w.Instr) {
+			continue
+		}
+		bad++
+		r.Bad(rule, key, p.Pos(w.Instr.Pos()), fmt.Sprintf("%s in %s may write memory reachable from the caller's policy while it is being compiled: a group or entry that is compiled later (or that shares a backing array) is then not the one the caller wrote, so the program's decisions are not the policy's", w.What, load.FuncName(w.Fn)))
+	}
+	for _, u := range a.Undecided {
+		key := load.FuncName(u.Fn) + "/" + u.What
+		if seen[key] {
+			continue
+		}
+		seen[key] = true
+		bad++
+		r.Unknown(rule, key, p.Pos(u.Instr.Pos()), u.What)
+	}
+	if bad == 0 {
+		r.OK(rule, "policy-not-written-while-compiled", "", fmt.Sprintf("%d stores/map updates/appends in %d functions reachable from the compile entry points: none may write memory reachable from the policy", a.NStores, len(a.Funcs)))
+	}
+}
